@@ -33,6 +33,7 @@ func init() {
 			{"C01.worker-errors", "a failed copy, read, write or chunk fetch fails the assembly worker", 1, c01WorkerErrors},
 			{"C01.validate-marks-invalid", "every seed failure reported by Plan.Validate marks that seed invalid (re-planning terminates)", 2, c01MarksInvalid},
 			{"C01.derived-state", "FileSeed.pos is rebuilt from scratch whenever FileSeed.index is replaced", 2, c01DerivedState},
+			{"C01.errors-not-dropped", "no error of the operations this property depends on is dropped", 1, func(c *Ctx) { c.errorsNotDropped("C01") }},
 		},
 	})
 }
